@@ -1,4 +1,14 @@
 import Rtsp.Props.C08
+#print axioms Rtsp.Codec.SimpleAudio.c08_inv_init
+#print axioms Rtsp.Codec.SimpleAudio.c08_inv_decode
+#print axioms Rtsp.Codec.SimpleAudio.c08_retained_le
+#print axioms Rtsp.Codec.SimpleAudio.c08_out_le
+#print axioms Rtsp.Codec.SimpleAudio.c08_stateless
+#print axioms Rtsp.Codec.Lpcm.c08_inv_init
+#print axioms Rtsp.Codec.Lpcm.c08_inv_decode
+#print axioms Rtsp.Codec.Lpcm.c08_retained_le
+#print axioms Rtsp.Codec.Lpcm.c08_out_le
+#print axioms Rtsp.Codec.Lpcm.c08_stateless
 #print axioms Rtsp.Codec.Fragmented.c08_inv_init
 #print axioms Rtsp.Codec.Fragmented.c08_inv_decode
 #print axioms Rtsp.Codec.Fragmented.c08_retained_le
